@@ -102,7 +102,8 @@ type World struct {
 	// Avoid lists history classes excluded by construction (recorded findings):
 	//   "mark-nonphysical"  garbage marks only on stored physical objects that are not parents
 	//   "reput-over-mark"   no put of an ID that carries a garbage mark
-	//   "revive"            no revival
+	//   "revive"            no revival that would succeed (tombstoned or default-marked address)
+	//   "mark-phy-parent"   no garbage mark that hits a PHYSICAL object which is also the parent of stored parts
 	//   "ts-on-marked"      no tombstone whose target (or a child of it) already carries a garbage mark
 	//   "mark-redundant"    no redundant marks
 	//   "reopen"            no close/open
@@ -360,6 +361,28 @@ func (w *World) Actions() map[string]func(*rapid.T) {
 				return
 			}
 		}
+		if w.Avoid["mark-phy-parent"] {
+			var keep []int
+			for _, id := range ids {
+				bad := false
+				for _, k := range append(w.M.Children(mm.Addr{C: c, I: id}), id) {
+					x := mm.Addr{C: c, I: k}
+					if o := w.M.Get(x); o != nil && o.Phy && w.M.Status(x, w.Epoch).ParentKind != "" {
+						bad = true
+					}
+				}
+				if !bad {
+					keep = append(keep, id)
+				}
+			}
+			if len(keep) != len(ids) {
+				w.Excluded["mark-phy-parent"]++
+			}
+			if ids = keep; len(ids) == 0 {
+				w.log("skip mark (excluded class mark-phy-parent)")
+				return
+			}
+		}
 		if red && w.Avoid["mark-redundant"] {
 			for _, id := range ids {
 				for _, k := range append(w.M.Children(mm.Addr{C: c, I: id}), id) {
@@ -444,7 +467,7 @@ func (w *World) Actions() map[string]func(*rapid.T) {
 		if len(cand) > 0 && rapid.IntRange(0, 4).Draw(t, "marked") > 0 {
 			a.I = rapid.SampledFrom(cand).Draw(t, "rid")
 		}
-		if w.Avoid["revive"] && w.M.Stored(a) && w.M.MarkedForRemoval(a) {
+		if w.Avoid["revive"] && (len(w.M.Tombstones(a)) > 0 || w.M.Mark(a) == mm.MarkDefault) {
 			w.Excluded["revive"]++
 			w.log("skip revive %s (excluded class revive)", a)
 			return
